@@ -13,6 +13,17 @@ new handler), further events, a final restart and an audit of all files.
                     newest file that has an octet) against the text the code really hands to
                     json.loads / eval, on directories whose last line has up to 2^22+1 octets.
 
+PEER-ADDRESS DIMENSION.  The handler keys its dictionaries and the directory by the lower-cased
+address while callbacks arrive with the address as configured (an IPv6 remote_addr may be spelled
+2001:DB8::1).  Section 4 runs histories with rotations after every / every second update, restarts,
+crashes and all nine callbacks for: IPv4, IPv6 lower-case, upper-case, mixed-case, IPv4-mapped;
+callbacks arriving with a spelling that changes from event to event or is never the configured
+one; the random histories of section 2 under an upper-case address; and two peers in one handler
+(init() + init_msg_file(), one write_dir), interleaved, with a crash inside either peer's write.
+A callback that raises is a failure of "every reported event appends exactly one line".  These
+cases are compared with the handler-level model (YLog.hrun: events carry the address as spelled,
+every access goes through [lower]).
+
 RECORD-SIZE DIMENSION.  A payload id is an index into PAYLOADS or ['sz', L]: a payload built at the
 moment of the call so that the record line (newline included) has exactly L octets.  L ranges from
 the smallest possible record (47 octets) over 100, 4000, every power of two from 512 to 65536 +-1
@@ -57,7 +68,10 @@ ASSUMPTIONS = [
     'fsync: only the write in progress when the process dies can be cut; a crash is followed by a restart',
     'names: file names sort in creation order (see trusted base)',
     'write_msg_max_size is compared in octets (check_msg_config has multiplied the MB value by 1024*1024)',
-    'one peer per handler; foreign files in the msg directory only in the seeded init cases',
+    'one configured peer per process (agent: handler.init() once); a second peer registered through '
+    'init_msg_file(addr.lower()) is exercised too; foreign files in the msg directory only in the seeded init cases',
+    'peer addresses: the key of a peer is the lower-cased text of its address (no other normalisation: two '
+    'textual forms of one IPv6 address, e.g. ::1 and 0:0:0:0:0:0:0:1, are two peers for the handler)',
     'record sizes: the abstract model has no notion of line length in start-up (a line is a list element); that the '
     'code has none either is what the sized records check: lines of 46 .. 70001 octets (thorough 2^20+1) written by the '
     'real callbacks, restarts while the last line is longer than 4096 / 65536 octets (counts in record_sizes), and the '
@@ -1203,6 +1217,10 @@ def run(ctx):
                     'huge record torn next to every block boundary) x thresholds below, at, above the record; '
                     'seeded directories with last lines up to 2^20+1 (thorough 2^22+1) octets; octet-level start-up (model '
                     'newest_line vs. the text the code parses); '
+                    'PEER ADDRESSES: 7 spellings (IPv4, IPv6 lower/upper/mixed case, IPv4-mapped) x spelling '
+                    'fixed / changing per event / never the configured one x thresholds {never, 1, 300} x histories '
+                    '(all callbacks, restarts, crashes, a 5000-octet record), the random histories under an '
+                    'upper-case address, 5 pairs of peers in one handler; '
                     'non-trivial = at least two lines written and audited, or a failing audit; '
                     'distinct by (threshold, history, offset)',
             'samples': samples, 'mismatches': mism, 'violations': violations, 'extra': stats}
